@@ -17,9 +17,15 @@ zix_thread_create(ZixThread*    thread,
                   ZixThreadFunc function,
                   void*         arg)
 {
+  // Round the size up, since an unaligned one may be rounded down or refused
+  static const size_t unit         = 4096U;
+  const size_t        rounded_size = (stack_size + unit - 1U) / unit * unit;
+
   pthread_attr_t attr;
   pthread_attr_init(&attr);
-  pthread_attr_setstacksize(&attr, stack_size);
+  pthread_attr_setstacksize(&attr,
+                            rounded_size >= stack_size ? rounded_size
+                                                       : stack_size);
 
   const int ret = pthread_create(thread, &attr, function, arg);
 
